@@ -12,6 +12,7 @@ from __future__ import annotations
 import implenv  # noqa: F401
 
 import asyncio
+import os
 import json
 
 import vtime
@@ -204,7 +205,14 @@ def run(ctx) -> Result:
         jobs = make_jobs(rng, 40 if deep else 20)
         sc = {"jobs": jobs, "converter": "basic", "policy": {"kind": "const", "us": 200_000}, "horizon_s": 12.0, "broker": kind,
               "results_kind": rk}
-        o = vtime.run(lambda loop, s=sc: scenario(s), budget=80_000_000)
+        # the Redis run in a process whose local time zone is five hours west of UTC (the bucket's expiry is an absolute
+        # instant computed from local wall-clock values)
+        if kind == "redis":
+            vtime.set_tz("XXX+5")
+        try:
+            o = vtime.run(lambda loop, s=sc: scenario(s), budget=80_000_000)
+        finally:
+            vtime.set_tz(os.environ.get("VERIF_TZ", "UTC"))
         check(o, model, res, f"results-{kind}")
         res.dist[f"broker:{kind}"] += len(jobs)
     # fault enumeration: the k-th store_bucket call raises
